@@ -3,7 +3,7 @@ C18PG = "server/db/postgres"
 
 PROPS["C18"] = prop(
     "fault_enumeration",
-    "fault enumeration with rapid-generated scripts against fake MySQL/PostgreSQL wire servers; oracle = transaction-bracket invariant over the statement trace",
+    "fault enumeration with rapid-generated scripts against fake MySQL/PostgreSQL wire servers; oracle = transaction-bracket invariant over the statement trace; rapid-generated account creations through the store mapper (store.Users.Create) over the in-memory adapter with the k-th adapter call failing; oracle = error reported and store unchanged, or no error and everything written",
     "one case = (adapter operation, arguments, result script for its SELECT/UPDATE/DELETE/INSERT answers, fault position k, fault kind in {statement error, "
     "duplicate key on an INSERT, connection drop}); every case first runs fault-free to learn the statement count n, so 1 <= k <= n; "
     "non-trivial = k > 1 and at least one data-modifying statement succeeded before statement k; distinct = distinct (operation, arguments, script, k, kind) by FNV-64; "
@@ -19,7 +19,7 @@ PROPS["C18"] = prop(
     "server is not modelled. The fake PostgreSQL server models the aborted-transaction state (25P02 until ROLLBACK / ROLLBACK TO SAVEPOINT, COMMIT of an aborted block "
     "answers ROLLBACK); the fake MySQL server keeps the transaction usable after a failed statement, as MySQL does. Adapters run with sql_timeout unset (a legal "
     "configuration), so no context cancellation can roll back behind the adapter's back; deadline expiry is only covered by the thorough-tier Stall units. "
-    "Store-level compositions (Users.Create, Messages.DeleteList in store.go) are not part of these units. MongoDB/RethinkDB adapters are not exercised.",
+    "Of the store-level compositions in store.go only account creation (Users.Create = UserCreate + TopicShare + compensating delete) is judged (unit TestC18StoreAccount, in-memory adapter); a hard delete whose SQL affects other rows than intended cannot be seen without a DBMS. MongoDB/RethinkDB adapters are not exercised.",
     "5/C18", "sql-fault",
     [Unit("TestC18MySQLEnum", C18MY, rapid=False, tags="mysql", shards_quick=1, shards_thorough=1, n_quick=4000, n_thorough=1000000, timeout_quick=300, timeout_thorough=3600),
      Unit("TestC18PostgresEnum", C18PG, rapid=False, tags="postgres", shards_quick=1, shards_thorough=1, n_quick=4000, n_thorough=1000000, timeout_quick=300, timeout_thorough=3600),
